@@ -28,6 +28,11 @@ Definition upd_eqb := list_eqb (pair_eqb rz_eqb rz_eqb).
 OPS = {"=": "OpEq", "+": "OpIns", "-": "OpDel"}
 MODES = {"unchecked": "Unchecked", "skip": "Skip", "wrap": "Wrap"}
 B, A = "⟦", "⟧"      # sentinel before/after strings; never part of generated texts
+# realistic markers: the characters an <a href=...> annotation carries (blank, dot, quote, hash, brackets, bar,
+# dash, braces, parentheses) between sentinels that keep them unique; no backslash (stated assumption: 'wrap' mode
+# passes before/after through a re.sub template)
+B2, A2 = "⟦a href='x.html#p-1' class=\"c [1]|{2} (3)\"⟧", "⟦/a .⟧"
+PAIRS = [(B2, A2), (B, A)]
 EXN = {"AttributeError": "AttrNone", "KeyError": "KeyErr", "IndexError": "IndexErr", "ValueError": "ValueErr",
        "TypeError": "TypeErr"}
 
@@ -96,7 +101,9 @@ def expected_term(out):
 
 
 def strip_sentinels(s):
-    return s.replace(B, "").replace(A, "")
+    for b, a in PAIRS:
+        s = s.replace(b, "").replace(a, "")
+    return s
 
 
 # ---------------- monitors
@@ -246,7 +253,8 @@ def run_cases(ctx, configs, monitors, shape_of=None):
     cases = []
     for cf in configs:
         plain, spans, source, mode, dmp = cf["plain"], cf["spans"], cf["source"], cf["mode"], cf["dmp"]
-        annots = [((s, e), B, A) for s, e in spans]
+        b_, a_ = PAIRS[0] if cf.get("ba") else (B, A)
+        annots = [((s, e), b_, a_) for s, e in spans]
         out, table = run_annotate(plain, annots, source, mode, dmp)
         steps = []
         if source and source != plain:
@@ -260,6 +268,8 @@ def run_cases(ctx, configs, monitors, shape_of=None):
                  dict(plain=plain, spans=spans, source=source, mode=mode, dmp=dmp, out=out)
                  if nt and len(spans) >= 2 and len(ctx.samples) < 6 else None)
         ctx.count(f"annotate mode={mode} engine={'dmp' if dmp else 'difflib'} source={'yes' if source else 'no'}")
+        if cf.get("ba"):
+            ctx.count("annotate with markers containing blanks, quotes, dots, brackets (href-like)")
         for name, mon in monitors:
             bad = mon(cf, annots, out)
             if bad:
